@@ -1012,7 +1012,9 @@ class Interp:
                 nb = base.copy(orth=keep_orth, taint=base.taint | v.taint,
                                lg=base.lg if (zero or (v.lg is not None and
                                                         v.lg == base.lg))
-                               else None, nonneg=False, normed=False)
+                               else None, nonneg=False, normed=False,
+                               delta=None,
+                               src=None if base.src == 'ones' else base.src)
                 if base.note == 'zeros' and v.deg is not None and \
                         (base.deg in (None, {}) or base.deg == v.deg):
                     nb.deg = v.deg
